@@ -90,6 +90,19 @@ def job_solver(job):
             continue
         prune = bool(op["prune"])
         mode = op.get("mode", "solve")
+        if op.get("labels"):
+            # the same labels as other string OBJECTS (in place: the description is the same
+            # description): "const" = the very constants tad exports, "fresh" = equal strings
+            # that came out of a parser
+            consts = {c: c for c in (tad.PLAYER_1, tad.PLAYER_2, tad.PROBABILISTIC)}
+            if op["labels"] == "const":
+                desc["players"][:] = [consts.get(p, p) for p in desc["players"]]
+            else:
+                desc["players"][:] = [json.loads(json.dumps(p)) for p in desc["players"]]
+        if op.get("xproc") is not None:
+            # "again" as the next run of the tool: a fresh interpreter with another string-hash seed
+            run_in_other_process(job, op)
+            continue
         emit({"e": "Call", "d": op["d"], "prune": prune, "mode": mode, "obj": op.get("obj", "new")})
         try:
             if mode in ("reach", "cond"):
@@ -137,6 +150,38 @@ def job_solver(job):
                   "rep": digest(repr(result))})
         except Exception as exc:
             emit({"e": "Raise", "etype": "BadResult", "cls": "other", "msg": repr(exc)[:300]})
+
+
+def run_in_other_process(job, op):
+    """One call of a session executed by a child worker (own interpreter, own PYTHONHASHSEED);
+    its events are relayed unchanged.  Only for scripts without edits."""
+    import subprocess
+    import time
+    child_op = {k: v for k, v in op.items() if k != "xproc"}
+    child_op["obj"] = "new"
+    child_job = {"kind": "solver", "descs": job["descs"], "script": [child_op]}
+    env = dict(os.environ, PYTHONHASHSEED=str(op["xproc"]), CONDREWARDS_VERIF="1", PYTHONDONTWRITEBYTECODE="1")
+    proc = subprocess.Popen([sys.executable, os.path.abspath(__file__), REPO], stdin=subprocess.PIPE,
+                            stdout=subprocess.PIPE, stderr=subprocess.DEVNULL, env=env, cwd="/")
+    try:
+        out, _ = proc.communicate((json.dumps(child_job) + "\n").encode(),
+                                  timeout=max(2.0, float(job.get("budget", 10.0)) - 1.0))
+    except subprocess.TimeoutExpired:
+        proc.kill()
+        proc.wait()
+        emit({"e": "Call", "d": op["d"], "prune": bool(op["prune"]), "mode": op.get("mode", "solve"), "obj": "new"})
+        time.sleep(10 ** 6)        # a hang is an observation: the parent ends this worker
+    done = False
+    for line in out.decode().splitlines():
+        msg = json.loads(line)
+        if "ev" in msg:
+            emit(msg["ev"])
+        elif "error" in msg:
+            raise RuntimeError("child worker failed: " + msg["error"])
+        elif msg.get("done"):
+            done = True
+    if not done:
+        raise RuntimeError("child worker ended early")
 
 
 HANDLERS = {"solver": job_solver}
